@@ -541,6 +541,30 @@ func (s *Sim) yield(site Site) {
 	s.park(t)
 }
 
+// Settle is a decision point that always hands control to the scheduler, which waits
+// (synctest.Wait) until every goroutine of the bubble - including helper goroutines of
+// dependencies, e.g. database/sql's context watchers - is durably blocked before it
+// releases a task again. Harness code calls it after an action whose asynchronous
+// consequences must have happened before the run continues (cancelling a context).
+//
+//go:norace
+func Settle() {
+	s := cur.Load()
+	if s == nil || s.dying.Load() {
+		return
+	}
+	s.mu.Lock()
+	t := s.current
+	if t == nil || t.st != stRunning {
+		s.mu.Unlock()
+		panic("simrt: Settle by a goroutine that is not the running task")
+	}
+	t.site = SiteUser
+	t.st = stReady
+	s.mu.Unlock()
+	s.park(t)
+}
+
 // BlockOn parks the running task until some task calls WakeAll(key).
 //
 //go:norace
